@@ -43,11 +43,11 @@ ALLOW_RE = [
 
 
 # ---------------------------------------------------------------- Tie B: MiniC translation of the leaf functions (tools/c2minic.py)
-MINIC_CORE = ["MiniC.eval_ni", "MiniC.exec_ni", "MiniC.soundness", "MiniC.exec_fuel_mono"]
+MINIC_CORE = ["MiniC.eval_ni", "MiniC.exec_ni", "MiniC.soundness", "MiniC.soundness_ctx", "MiniC.exec_fuel_mono"]
 _MINIC_PROPS = os.path.join(vcore.LEAN, "SodiumModel", "Properties", "C11MiniC.lean")
 MINIC_PROPS = ["Sodium.C11MiniC." + n for n in re.findall(r"^theorem\s+([A-Za-z0-9_']+)", vcore.strip_comments(open(_MINIC_PROPS).read()), re.M)] if os.path.exists(_MINIC_PROPS) else []
 THEOREMS = THEOREMS + MINIC_CORE + MINIC_PROPS
-IMPORTS = IMPORTS + ["SodiumModel.MiniC.Soundness", "SodiumModel.Properties.C11MiniC"]
+IMPORTS = IMPORTS + ["SodiumModel.MiniC.Soundness", "SodiumModel.MiniC.SoundnessCtx", "SodiumModel.Properties.C11MiniC"]
 
 SEARCH_TMPL = """import Generated.MiniCFuns
 import SodiumModel.MiniC.Semantics
@@ -123,6 +123,10 @@ def tie_b(ctx):
         t = time.time()
         r = c2minic.run_tie(vcore.LEAN)
         fns = [x["fn"] for x in r.get("translated", [])]
+        # the extended translator reports the fully qualified name of each non-interference corollary: the small helpers keep
+        # Sodium.Generated.MiniC.ni_<fn>, the large programs (one program per build configuration, MiniC.soundness_ctx) live in
+        # Sodium.Generated.MiniCBig; a function translated from two configurations has two corollaries (ni_<fn>, ni_<fn>_portable)
+        ni_names = [x.get("ni") or ("Sodium.Generated.MiniC.ni_" + x["fn"]) for x in r.get("translated", [])]
         ctx.stats["minic_functions_translated"] = ["%s [%s]" % (x["fn"], x["variant"]) for x in r.get("translated", [])]
         ctx.stats["minic_tie_s"] = round(time.time() - t, 1)
         out = []
@@ -132,19 +136,20 @@ def tie_b(ctx):
         if r["status"] == "failed":
             for name in r["failed"]:
                 fn = re.sub(r"^(ct|ni)_", "", name)
-                w = _minic_search(ctx, fn) if fn in fns else None
+                fn = re.sub(r"^chk_(native|noasm|noti|portable)_", "", fn)      # checkFn obligation of one function of a large program
+                w = _minic_search(ctx, fn) if (fn in fns and ("Sodium.Generated.MiniC.ni_" + fn) in ni_names) else None
                 msg = ("the constant-time type checker rejects `%s` as translated from the current source (or a concrete example about it no longer evaluates as expected)" % fn)
                 if w:
                     msg += "; source-level witness under the MiniC semantics — two inputs equal on everything Public with different leakage traces: " + w
                     ctx.violations_with_input = getattr(ctx, "violations_with_input", 0) + 1
                 out.append(("Sodium.Generated.MiniC." + name, msg + "\n" + r["log"][-800:]))
             ctx.log("Tie B (MiniC): %d functions translated, obligations failing: %s" % (len(fns), r["failed"]))
-            for fn in fns:
-                ctx.obligations.append({"theorem": "Sodium.Generated.MiniC.ni_" + fn, "axioms": ["(not audited: obligations file does not build)"]})
+            for n in ni_names:
+                ctx.obligations.append({"theorem": n, "axioms": ["(not audited: obligations file does not build)"]})
             ctx.discharged = len(ctx.obligations) - len(out)
             return out
         # all obligations check: audit the axioms of the instantiated non-interference theorems
-        names = ["Sodium.Generated.MiniC.ni_" + fn for fn in fns]
+        names = list(dict.fromkeys(ni_names))
         src = "import Generated.MiniCObligations\n" + "".join("#print axioms %s\n" % n for n in names)
         f = os.path.join(ctx.scratch, "AuditMiniC.lean")
         open(f, "w").write(src)
